@@ -80,20 +80,26 @@ type diagnosticInSourcePackage struct {
 	pkg     sourceaddrs.RemotePackage
 }
 
-// inRemoteSourcePackage modifies the reciever in-place so that all of the
-// diagnostics will have their source filenames (if any) interpreted as
-// sub-paths within the given source package.
+// inRemoteSourcePackage wraps all of the diagnostics so that they will have
+// their source filenames (if any) interpreted as sub-paths within the given
+// source package.
 //
-// For convenience, returns the same diags slice whose backing array has now
-// been modified with different diagnostics.
+// Returns a new slice; the given one is left as it is.
 func (diags Diagnostics) inRemoteSourcePackage(pkg sourceaddrs.RemotePackage) Diagnostics {
+	if len(diags) == 0 {
+		return diags
+	}
+	// The slice belongs to the dependency finder that returned it, which may
+	// keep it and return it again for another package, so the wrapped
+	// diagnostics go into a slice of our own.
+	ret := make(Diagnostics, len(diags))
 	for i, diag := range diags {
-		diags[i] = diagnosticInSourcePackage{
+		ret[i] = diagnosticInSourcePackage{
 			wrapped: diag,
 			pkg:     pkg,
 		}
 	}
-	return diags
+	return ret
 }
 
 var _ Diagnostic = diagnosticInSourcePackage{}
